@@ -38,6 +38,7 @@ VARIANTS = [
     ('c01-open-mode', 'C01', X12, "open(src_file_obj, 'r', encoding='ascii')", "open(src_file_obj, 'rU', encoding='ascii')", B, 'C01.R1'),
     ('c01-version-whitelist', 'C01', RAW, "if self.icvn not in ('00401', '00501'):", "if self.icvn not in ('00401', '00501', '00402'):", B, 'C01.R2'),
     # ---------------------------------------------------------------- C02
+    ('c02-repeat-ge', 'C02', WLK, "if self.counter.get_count(loop_node.x12path) > loop_node.get_max_repeat():", "if self.counter.get_count(loop_node.x12path) >= loop_node.get_max_repeat():", B, 'C02.R12'),
     ('c02-path-typo', 'C02', DOC, "cur_map.getnodebypath('/ISA_LOOP/GS_LOOP/GS')", "cur_map.getnodebypath('/ISA_LOOP/GS_LOOP/GS1')", B, 'C02.R2'),
     ('c02-bht-tuple', 'C02', DOC, "if vriic in ('004010X094', '004010X094A1'):", "if vriic in ('004010X094',):", B, 'C02.R1'),
     ('c02-drop-tm', 'C02', VAL, "        elif data_type == 'TM':\n            if not is_valid_time(str_val):\n                raise IsValidError\n", "", B, 'C02.R3'),
@@ -52,6 +53,8 @@ VARIANTS = [
      "                self._error(errh, err_str, '5', elem_val)\n                valid = False\n            if len(elem_strip) > max_len:", B, 'C03.R4'),
     ('c03-drop-add-seg', 'C03', WLK, "        errh.add_seg(orig_node, seg_data, seg_count, cur_line, ls_id)\n", "", B, 'C03.R2'),
     # ---------------------------------------------------------------- C04
+    ('c04-ge-id-skip', 'C04', X12, "if self.loops[-1][1] != seg_data.get_value('GE02'):", "if self.loops[-1][1] != seg_data.get_value('GE02') and seg_data.get_value('GE02'):", B, 'C04.R6'),
+    ('c04-gs-count-reset', 'C04', X12, "            self.gs_count = 0\n", "            self.gs_count = 1\n", B, 'C04.R7'),
     ('c04-drop-st-ids-reset', 'C04', X12, "            self.st_ids = []\n", "", B, 'C04.R1'),
     ('c04-seg-count-reset', 'C04', X12, "self.seg_count = 1", "self.seg_count = 0", B, 'C04.R1'),
     ('c04-se-compare', 'C04', X12, "!= self.seg_count + 1:", "!= self.seg_count:", B, 'C04.R1'),
@@ -63,6 +66,8 @@ VARIANTS = [
     ('c04-int-total', 'C04', X12, "        except (ValueError, TypeError):\n            return None", "        except ValueError:\n            return None", B, 'C04.R3'),
     ('c04-benign-plus-one', 'C04', X12, "!= self.seg_count + 1:", "!= 1 + self.seg_count:", OK, None),
     # ---------------------------------------------------------------- C05
+    ('c05-ak9-swap', 'C05', E97, "seg_data.append('%i' % err_gs.st_count_orig)\n        seg_data.append('%i' % err_gs.st_count_recv)", "seg_data.append('%i' % err_gs.st_count_recv)\n        seg_data.append('%i' % err_gs.st_count_orig)", B, 'C05.R16'),
+    ('c05-failed-e', 'C05', EH, "if child.ack_code not in ['A', 'E']:", "if child.ack_code not in ['A']:", B, 'C05.R15'),
     ('c05-verdict-gt1', 'C05', DOC, "if not valid or errh.get_error_count() > 0:", "if not valid or errh.get_error_count() > 1:", B, 'C05.R1'),
     ('c05-verdict-and', 'C05', DOC, "if not valid or errh.get_error_count() > 0:", "if not valid and errh.get_error_count() > 0:", B, 'C05.R1'),
     ('c05-benign-verdict', 'C05', DOC, "if not valid or errh.get_error_count() > 0:", "if errh.get_error_count() >= 1 or not valid:", OK, None),
